@@ -56,10 +56,13 @@ def peerSnap (s : PeerState) : String :=
   let r := listStr (s.requests.requested.map (fun r => toString r.index ++ (if r.cancelled then "*" else "")))
   let up := listStr (s.upload.map (fun (i, b, l) => s!"{i}/{b}/{l}"))
   let fast := listStr (s.fast.map toString)
+  -- the membership bitmap over every block number plus a margin
+  let nb := 16 + (if s.info then chunksOf s.length else 0)
+  let mb := listStr (((List.range nb).filter (fun c => bGet s.requests.bits c)).map toString)
   -- once the metadata is known the flag is a cache that the status getters refresh
   -- (`isSeed(peer)`) and no handler reads: printed only before
   let seed := if s.info then "-" else boolStr s.isSeed
-  s!"info={boolStr s.info} bm={optBm s.bitmap} seed={seed} un={boolStr s.unchoked} in={boolStr s.interested} au={boolStr s.amUnchoking} si={boolStr s.shouldInterested} ai={boolStr s.amInterested} ge={boolStr s.gotExtended} ext={s.pexExt},{s.metadataExt},{s.dontHaveExt},{s.uploadOnlyExt} uo={boolStr s.uploadOnly} port={s.port} rq={s.reqQ} q={q} r={r} up={up} fast={fast} pex={peersStr s.pex} tick={boolStr s.uploadTicking} my={payloadStr s.myBitmap} w={s.wlen}"
+  s!"info={boolStr s.info} bm={optBm s.bitmap} seed={seed} un={boolStr s.unchoked} in={boolStr s.interested} au={boolStr s.amUnchoking} si={boolStr s.shouldInterested} ai={boolStr s.amInterested} ge={boolStr s.gotExtended} ext={s.pexExt},{s.metadataExt},{s.dontHaveExt},{s.uploadOnlyExt} uo={boolStr s.uploadOnly} port={s.port} rq={s.reqQ} q={q} r={r} mb={mb} up={up} fast={fast} pex={peersStr s.pex} tick={boolStr s.uploadTicking} my={payloadStr s.myBitmap} w={s.wlen}"
 
 def sparseStr (v : Sparse) : String :=
   s!"{v.len}:" ++ "{" ++ ",".intercalate (v.nz.map (fun kv => s!"{kv.1}:{kv.2}")) ++ "}"
@@ -201,6 +204,12 @@ def step (st : St) (ws0 : List String) : St × String :=
       ({ st with t := r.t }, s!"res={resStr r.res} {snap} {allocStr ta (r.alloc + r.store)} tag={r.tag}")
     | _, _, _ => (st, "bad-op")
   | ["sched", _] => (st, "ok")
+  | ["tick", rs] =>
+    match (if rs == "-" then some [] else (rs.splitOn ".").mapM String.toNat?) with
+    | some l => ({ st with t := reserve st.t l }, "res=ok")
+    | none => (st, "bad-op")
+  | ["env", "hold"] => (st, "ok")
+  | ["env", "release"] => (st, "ok")
   | ["env", "setw", k] =>
     match k.toNat? with
     | some k => ({ st with p := { st.p with wlen := k } }, "ok")
